@@ -49,6 +49,17 @@ def r1_nothing_dropped(ctx):
             bs = cfg.bool_switch(body, i)
             if bs and bs.def_is_term and cname(bs.defn) == "is_subset":
                 gate = bs
+        if gate is not None:
+            d = gate.defn
+            recv = fg.back_from_operand(body, d["args"][0])
+            arg = fg.back_from_operand(body, d["args"][1])
+            k2 = f.root + "|subset-direction"
+            # `local` is later extended with `remote` (flow-insensitive: local depends on remote),
+            # so the discriminating side is the argument: it must be built from `remote` alone
+            if recv.has_var(body, "local") and arg.has_var(body, "remote") and not arg.has_var(body, "local"):
+                r.ok(k2, cfg.loc(body, gate.block), "local_commits.is_subset(remote_commits)", work=len(recv.nodes) + len(arg.nodes))
+            else:
+                r.violation(k2, cfg.loc(body, gate.block), "the subset test is not `local ⊆ remote`: local-only events can be discarded by the rewind", work=len(recv.nodes) + len(arg.nodes))
         k = f.root + "|rewind-only-when-subset"
         if gate and j not in cfg.reach(body, [0], cut_edges={(gate.block, gate.true_t)}):
             r.ok(k, cfg.loc(body, gate.block), "RewindLocal only when every local commit is already in the remote set", work=len(live))
